@@ -164,7 +164,8 @@ impl Engine for FileE2e {
             }
         }
         let final_flush = overflow || !ch.chance(1, 4);
-        let burst = 9_990 + ch.choose(40) as usize;
+        // one overflow of the 10 000-event channel, or two or three of them while the worker is still stalled
+        let burst = 9_990 + ch.choose(40) as usize + *ch.pick(&[0usize, 0, 10_000, 20_000]);
         if overflow {
             steps = vec![Step::Emit(0), Step::Sleep(10), Step::Burst(1, burst), Step::Sleep(1)];
         }
@@ -477,9 +478,24 @@ impl Engine for FileE2e {
                                 Step::Burst(first, n) => {
                                     let ts = emit::Timestamp::from_unix(*clk.0.lock().unwrap()).unwrap();
                                     sc.set_nonblocking(Some("FileSet::emit"));
+                                    // memory: what the first 5 000 events of the burst cost is what half a full queue
+                                    // costs (plus this harness's own bookkeeping per event); however many events
+                                    // follow, the channel holds at most 10 000 of them
+                                    // (only where the worker is stalled in one filesystem call from the first to the last
+                                    // event of the burst: what it writes lives in the simulated disk, which is memory too)
+                                    let fs_ops0 = fa.op_count() + fb.op_count();
+                                    let live0 = crate::core::live_bytes();
+                                    let mut live_5000 = live0;
+                                    let filler = "x".repeat(400);
                                     for i in first..first + n {
+                                        if i == first + 5_000 {
+                                            live_5000 = crate::core::live_bytes();
+                                        }
+                                        if (i - first) % 2_500 == 0 && std::env::var_os("VSIM_DEBUG_THREADS").is_some() {
+                                            sc.log(format!("  debug: after {} burst events {} bytes live (+{})", i - first, crate::core::live_bytes(), crate::core::live_bytes() - live0));
+                                        }
                                         let marker = format!("MK{:06}KM", i + 1);
-                                        let props = [("marker", emit::Value::from(marker.as_str()))];
+                                        let props = [("marker", emit::Value::from(marker.as_str())), ("filler", emit::Value::from(filler.as_str()))];
                                         let evt = emit::Event::new(
                                             emit::path!("sim::file"),
                                             emit::Template::literal("burst"),
@@ -491,7 +507,27 @@ impl Engine for FileE2e {
                                         clog.lock().unwrap().emitted.push((i, sc.now()));
                                     }
                                     sc.set_nonblocking(None);
+                                    let live_end = crate::core::live_bytes();
+                                    let (half_queue, total) = (live_5000 - live0, live_end - live0);
                                     sc.log(format!("burst of {n} events emitted"));
+                                    if n >= 9_000 && half_queue > 0 && fa.op_count() + fb.op_count() != fs_ops0 {
+                                        sc.probe("burst_overlapped_worker_progress_memory_not_judged");
+                                    } else if n >= 9_000 && half_queue > 0 {
+                                        sc.probe("memory_measured_over_a_burst");
+                                        if n > 20_000 {
+                                            sc.probe("channel_overflowed_more_than_once_while_stalled");
+                                        }
+                                        let bound = half_queue * 22 / 10 + 1_500_000;
+                                        if total > bound {
+                                            sc.violate(
+                                                "C09",
+                                                "memory_grows_with_discarded_events",
+                                                format!(
+                                                    "a burst of {n} events into a stalled file set left {total} more bytes allocated; the first 5000 of them (half a full queue) cost {half_queue} bytes, so a queue that never holds more than 10 000 events accounts for at most {bound}"
+                                                ),
+                                            );
+                                        }
+                                    }
                                     if let Some(m) = &metrics {
                                         use emit::metric::Source as _;
                                         let got: Mutex<(Option<u64>, Option<u64>)> = Mutex::new((None, None));
